@@ -43,7 +43,8 @@ def rand_ub_op(rng):
             if abs(np.linalg.det(m)) > 0.3:
                 return ("ub", m)
     lat = rng.choice([(4.0,), (4.0, 5.0), (4.0, 5.0, 6.0), (4.1, 5.2, 6.3, 100.0), (4.1, 5.2, 6.3, 80, 95, 100), ("Hexagonal", 3.0, 5.0), ("Rhombohedral", 4.0, 75.0)])
-    return ("lat", lat, [rng.uniform(-1, 1) for _ in range(3)])
+    how = rng.choice(["set_u", "set_u", "calc_ub", "calc_ub1", "miscut", "refine"])
+    return ("lat", lat, [rng.uniform(-1, 1) for _ in range(3)], how)
 
 
 def gen_history(rng, maxlen):
@@ -66,9 +67,31 @@ def apply_impl(ub, op):
             ub.crystal = None; ub.U = None
             ub.set_ub(op[1])
     else:
+        # every public route by which a calculation acquires or changes its U / UB
+        from diffcalc.hkl.geometry import Position
+        how = op[3] if len(op) > 3 else "set_u"
+        U0 = rot_from_rotvec(op[2])
         with quiet():
             ub.set_lattice("x", *op[1])
-            ub.set_u(rot_from_rotvec(op[2]))
+            B = np.asarray(ub.crystal.B, float)
+            if how == "set_u" or ub.U is None and how in ("miscut", "refine"):
+                ub.set_u(U0)
+            elif how in ("calc_ub", "calc_ub1"):
+                while ub.get_number_orientations():
+                    ub.del_orientation(1)
+                while ub.get_number_reflections():
+                    ub.del_reflection(1)
+                if how == "calc_ub":
+                    for h in ((1, 0, 0), (0, 1, 1)):
+                        ub.add_orientation(h, tuple(float(x) for x in U0 @ B @ np.array(h, float)))
+                    ub.calc_ub()
+                else:
+                    ub.add_reflection((0, 0, 1), Position(7.31, 0, 10.62, 0, 0, 0), 12.39842, "r")
+                    ub.calc_ub()
+            elif how == "miscut":
+                ub.set_miscut((op[2][0], op[2][1], 0.3), 3.0, True)
+            else:
+                ub.refine_ub((1, 0, 1), Position(0, 35, 5, 12, 40, 20), 1.0, True, True)
 
 
 def getters(ub):
